@@ -119,7 +119,10 @@ _MIME_DONE = False
 class World:
     def __init__(self, root=None, handlers="default", overrides=None, keep_root=False):
         self.own_root = root is None
-        self.root = root or tempfile.mkdtemp(prefix="verif-root-", dir="/dev/shm" if os.path.isdir("/dev/shm") else None)
+        base = os.environ.get("VERIF_SCRATCH")
+        if not (base and os.path.isdir(base)):
+            base = "/dev/shm" if os.path.isdir("/dev/shm") else None
+        self.root = root or tempfile.mkdtemp(prefix="verif-root-", dir=base)
         self.keep_root = keep_root
         cp = configparser.ConfigParser()
         cp.read(os.path.join(core.REPO, "conf", "pygopherd.conf"))
